@@ -1317,6 +1317,11 @@ class Workflow(Trellis):
             creator = file.creator()
             if isinstance(creator, Step):
                 self.mark_step_pending(creator)
+            # The consumers wait for the rebuilt file, as in handle_deleted_file.
+            # Without this, whether they become pending depends on the order in which
+            # the hash updates of a batch arrive: they do when the creator is made pending
+            # (by another change) while this file is still BUILT, and not otherwise.
+            self.mark_consuming_steps_pending(file)
 
     def handle_deleted_file(self, file: File):
         """Modify the graph to account for the fact this file is not on disk.
